@@ -45,7 +45,7 @@ func (P) Describe() harness.Description {
 			"an event belongs to the bucket of the clock value the recorder read; timestamps are >= 1 ms",
 			"min RT is compared only below the documented statistic ceiling (60000 ms); with no RT in the window the value is unspecified",
 			"node-level AvgRT may be the integer-truncated quotient (band floor(x)..x); view-level AvgRT is checked only when completes > 0",
-			"previous-window QPS is claimed only for views with I_v + L_v <= I and t >= I_v + L_v",
+			"previous-window QPS is claimed only for views with I_v + L_v <= I (and t >= L_v: before that the reference instant t - L_v does not exist)",
 			"per-second items: all-zero items inside the window are tolerated; AvgRt of an item is checked only when completes > 0 (floor)",
 		},
 		Real: []string{"core/stat/base.LeapArray", "BucketLeapArray", "MetricBucket", "SlidingWindowMetric", "core/stat.BaseStatNode", "base.CheckValidityForReuseStatistic"},
@@ -100,7 +100,7 @@ func (P) Gen(rng *sim.Rng, tier string) *harness.Case {
 	I := uint64(cfg.I)
 	switch rng.Intn(4) {
 	case 0:
-		cfg.Origin = rng.U64Range(1, 2*I+1)
+		cfg.Origin = rng.U64Range(0, 2*I+1)
 	case 1:
 		cfg.Origin = 1700000000000 + rng.U64Range(0, 86400000)
 	case 2: // on a cycle boundary
@@ -211,7 +211,7 @@ func (P) Exec(c *harness.Case) *harness.Outcome {
 		o.Infra = err.Error()
 		return o
 	}
-	if cfg.N == 0 || cfg.I == 0 || cfg.I%cfg.N != 0 || cfg.Origin == 0 {
+	if cfg.N == 0 || cfg.I == 0 || cfg.I%cfg.N != 0 {
 		return o
 	}
 	env := harness.Reset(cfg.Origin*1e6, harness.Geometry{GlobalSamples: cfg.N, GlobalInterval: cfg.I, MetricSamples: cfg.NodeV.N, MetricInterval: cfg.NodeV.I})
@@ -368,7 +368,7 @@ func checkRead(o *harness.Outcome, step int, cfg *Cfg, s *subject, ref *model.Wi
 			if got, w := m.GetQPS(ev), float64(want)*1000/float64(Iv); !feq(got, w) {
 				o.Fail("C08.view-qps", step, "t=%d %s(n=%d,i=%d).GetQPS(event %d)=%v, reference %v", now, name, v.N, v.I, k, got, w)
 			}
-			if Iv+Lv <= I && now >= Iv+Lv {
+			if Iv+Lv <= I && now >= Lv {
 				plo, phi := ref.Range(now-Lv, Iv)
 				w := float64(ref.Sum(k, plo, phi)) * 1000 / float64(Iv)
 				if got := m.GetPreviousQPS(ev); !feq(got, w) {
